@@ -627,6 +627,26 @@ def class_body(ctx, case):
             if Value.cast(s2).init != compose(dv) or hdl.Const.cast(cls.const(None)).value != compose(dv):
                 raise Mismatch("class-defaults-changed-by-an-earlier-use", defaults=dv, override=ov, expected=compose(dv),
                                actual=Value.cast(s2).init)
+        # copies made with Signal.like keep the shape and the initial pattern (also an all-zero pattern given
+        # explicitly, which must not fall back to the class defaults)
+        zinit = {name: b.pyvalue(f, 0) for name, f in (d[1] if d[0] == "struct" else d[1][:1])}
+        srcs = [("defaults", s0, compose(dv))]
+        if oinit:
+            srcs.append(("override", s1, Value.cast(s1).init))
+        if all(v is not None for v in zinit.values()) and zinit:
+            sz = Signal(cls, init=zinit)
+            if Value.cast(sz).init != 0:
+                raise Mismatch("class-init-all-zero", defaults=dv, expected=0, actual=Value.cast(sz).init)
+            srcs.append(("all-zero", sz, 0))
+            if dv and compose(dv): ctx.tally("cls:zero-init-over-nonzero-defaults")
+        for what, src, exp in srcs:
+            cp = Signal.like(src)
+            if not isinstance(cp, cls) or Value.cast(cp).init != exp:
+                raise Mismatch("signal-like-copy", source=what, defaults=dv, expected=exp,
+                               actual=Value.cast(cp).init if isinstance(cp, cls) else repr(type(cp)))
+            cp2 = Signal.like(Value.cast(src))
+            if Value.cast(cp2).init != exp:
+                raise Mismatch("signal-like-copy-of-underlying-value", source=what, expected=exp, actual=Value.cast(cp2).init)
         # attribute access == item access, const round trip
         raw = case["raw"]
         c = cls.from_bits(raw)
@@ -872,6 +892,6 @@ def parts(tier):
 REQUIRED = ["lay:struct", "lay:union", "lay:array", "lay:flex", "lay:depth2", "lay:signed-enum-or-overlap",
             "lay:dynamic-index", "lay:write-through-view", "lay:enum-field", "lay:all-patterns",
             "lay:const-generated-initialiser", "lay:const-hdl-const-initialiser", "lay:rtlil-leg", "cls:struct", "cls:union",
-            "cls:defaults", "cls:init-override", "enum:Enum", "enum:IntEnum", "enum:Flag", "enum:IntFlag",
+            "cls:defaults", "cls:init-override", "cls:zero-init-over-nonzero-defaults", "enum:Enum", "enum:IntEnum", "enum:Flag", "enum:IntFlag",
             "enum:flag-ops", "enum:flag-multibit-with-unnamed-bit", "nest:depth2", "nest:child-empty", "nest:child-none",
             "nest:child-partial", "nest:child-absent"]
